@@ -480,6 +480,10 @@ func (fc *FnCtx) sprintfTerm(format string, elems []string) (string, bool) {
 		fc.useTrusted("fmt.Sprintf(\"%d%%\", n) = pct(n)")
 		return fc.pctTerm("(iint " + elems[0] + ")"), true
 	}
+	if format == "%d" && len(elems) == 1 {
+		fc.useTrusted("fmt.Sprintf(\"%d\", n) = itoa(n)")
+		return "(itoa (iint " + elems[0] + "))", true
+	}
 	if nverbs != len(elems) {
 		return "", false
 	}
